@@ -217,12 +217,7 @@ func cmdAnyutilReplay(args []string) {
 		if err != nil {
 			continue
 		}
-		for k := 0; k < 3; k++ {
-			packs++
-			d := g.Dynamic(mdx)
-			m := mt.New().Interface()
-			proj.Fill(proj.Impl(m), proj.Project(d.ProtoReflect(), proj.WrapNone), proj.WrapImpl)
-			refb, _ := proto.MarshalOptions{Deterministic: true}.Marshal(d)
+		checkPack := func(m proto.Message, refb []byte) {
 			for _, pf := range []struct {
 				name string
 				f    func() (*anypb.Any, error)
@@ -265,6 +260,25 @@ func cmdAnyutilReplay(args []string) {
 				if !bytes.Equal(b1, b2) || !bytes.Equal(b1, refb) {
 					emit("unpack-of-pack:paths-disagree", "file-registry (dynamic) path differs from type-registry path", string(mdx.FullName()))
 				}
+			}
+		}
+		for k := 0; k < 3; k++ {
+			packs++
+			d := g.Dynamic(mdx)
+			m := mt.New().Interface()
+			proj.Fill(proj.Impl(m), proj.Project(d.ProtoReflect(), proj.WrapNone), proj.WrapImpl)
+			refb, _ := proto.MarshalOptions{Deterministic: true}.Marshal(d)
+			checkPack(m, refb)
+		}
+		// a value nested far deeper than any typical hand-picked limit, far below the default one
+		if path := cyclePath(mdx); path != nil {
+			packs++
+			deep := nestedWithUnknown(mdx, path, 300)
+			m := mt.New().Interface()
+			d := dynamicpb.NewMessage(mdx)
+			if proto.Unmarshal(deep, m) == nil && proto.Unmarshal(deep, d) == nil {
+				refb, _ := proto.MarshalOptions{Deterministic: true}.Marshal(d)
+				checkPack(m, refb)
 			}
 		}
 	}
